@@ -20,6 +20,13 @@ pub open spec fn rmax(x: real, y: real) -> real { if x >= y { x } else { y } }
 pub open spec fn rpowi(x: real, n: int) -> real decreases n { if n <= 0 { 1real } else { x * rpowi(x, n - 1) } }
 pub uninterp spec fn rsqrt(x: real) -> real;
 pub uninterp spec fn rpi() -> real;
+pub uninterp spec fn rlog2(x: real) -> real;
+pub uninterp spec fn rceil(x: real) -> real;
+pub uninterp spec fn rpowf(x: real, y: real) -> real;
+pub uninterp spec fn rexp(x: real) -> real;
+pub uninterp spec fn rln(x: real) -> real;
+pub uninterp spec fn rsin(x: real) -> real;
+pub uninterp spec fn rcos(x: real) -> real;
 pub uninterp spec fn sign_pos_at_zero(tag: int) -> bool;
 
 // R is a value type: two R with the same view are the same value.
@@ -206,6 +213,21 @@ impl R {
     pub fn is_sign_positive(self) -> (b: bool) ensures self@ > 0real ==> b, self@ < 0real ==> !b { unimplemented!() }
     #[verifier::external_body]
     pub fn is_sign_negative(self) -> (b: bool) ensures self@ > 0real ==> !b, self@ < 0real ==> b { unimplemented!() }
+    // transcendental functions: uninterpreted (nothing is known about their values)
+    #[verifier::external_body]
+    pub fn log2(self) -> (r: R) ensures r@ == rlog2(self@) { unimplemented!() }
+    #[verifier::external_body]
+    pub fn ceil(self) -> (r: R) ensures r@ == rceil(self@) { unimplemented!() }
+    #[verifier::external_body]
+    pub fn powf(self, y: R) -> (r: R) ensures r@ == rpowf(self@, y@) { unimplemented!() }
+    #[verifier::external_body]
+    pub fn exp(self) -> (r: R) ensures r@ == rexp(self@) { unimplemented!() }
+    #[verifier::external_body]
+    pub fn ln(self) -> (r: R) ensures r@ == rln(self@) { unimplemented!() }
+    #[verifier::external_body]
+    pub fn sin(self) -> (r: R) ensures r@ == rsin(self@) { unimplemented!() }
+    #[verifier::external_body]
+    pub fn cos(self) -> (r: R) ensures r@ == rcos(self@) { unimplemented!() }
     #[verifier::external_body]
     pub fn pi() -> (r: R) ensures r@ == rpi() { unimplemented!() }
 }
